@@ -207,6 +207,11 @@ def unitSuffix (f : Fmt) (unit : Option (List Char)) : List Char :=
 def numberToX (f : Fmt) (fmt : Option Nat) (mag : Rat) (unit : Option (List Char)) : Res :=
   renderX f (fmtG (fmt.getD defaultPrecision) mag) (unitSuffix f unit)
 
+/-- `number_to_scientific_X(number, [uncertainty], unit, fmt)` with a CALLABLE `fmt`: `flt = fmt(mag)` resp. `fmt(mag, uncertainty)`;
+    the text the callback returned is an opaque input (taken from the real call), the rest of `_number_to_X` is applied to it -/
+def numberToXCallback (f : Fmt) (callbackText : List Char) (unit : Option (List Char)) : Res :=
+  renderX f callbackText (unitSuffix f unit)
+
 /-! ### `_float_str_w_uncert` -/
 
 /-- `'%.{w}f' % (n / 10^w)` on exact arithmetic: the integer `n` with the point `w` places from the right -/
